@@ -43,8 +43,11 @@ LEVEL_NOTE = ("Message numbers, the per-packet overhead (64), the window-thresho
               "atomic steps with the code between switch points (validated by the enumeration, and by the "
               "lock-discipline oracle that flags any access to the shared flags outside the lock); channels run "
               "with timeout 0.0 or None (writers then block in out_buffer_cv.wait, an instrumented switch point); "
-              "timed waits (0 < timeout) are not modelled; _pipe (fileno) and channel requests "
-              "are outside the model; blocking is modelled for writers (out_buffer_cv) but not for recv.")
+              "timed waits (0 < timeout) are not modelled; _pipe (fileno) is outside the model; channel requests "
+              "(get_pty, exec_command, env, exit-status ...) are outside the Coq model and covered only by the "
+              "released-channel API sweep (every public Channel method, enumerated by reflection + gen/c22.py, "
+              "called on a channel with both CLOSEs exchanged: nothing may be sent); "
+              "blocking is modelled for writers (out_buffer_cv) but not for recv.")
 TECHNIQUE = ("Coq invariant proof over all schedules + deterministic-scheduler enumeration of real Channel objects "
              "(blocking writers included) + fail-closed translator for the constants")
 
@@ -866,6 +869,10 @@ def run(ctx):
     ctx.prove()
     _t1 = _time.time()
     classes = make_classes()
+    nrel, nsend = released_sweep(ctx, classes)
+    ctx.notes.append("released-channel sweep: %d API calls (every public method of Channel by reflection, x2 states, "
+                     "each called twice); %d of them can reach _send_user_message according to gen/c22.py" % (
+                         nrel, nsend))
 
     budget = 50000 if ctx.thorough else 7000
     cap_fixed = 6000 if ctx.thorough else 500
@@ -963,8 +970,167 @@ def run(ctx):
         ctx.sample({"init": list(i), "programs": p, "schedule": s, "impl_outcome": o})
 
 
+# --------------------------------------------------------------------------
+# released-channel API sweep: after both CLOSEs every public API of Channel is called; nothing may reach
+# the wire, the request APIs must raise SSHException and the send APIs socket.error
+
+ARG_BY_NAME = {
+    "command": "true", "subsystem": "sftp", "name": "A", "value": "b", "term": "vt100",
+    "environment": {"A": "b"}, "status": 3, "nbytes": 64, "how": 2, "s": b"abc",
+    "handler": (lambda *a: None), "combine": True, "blocking": 1, "timeout": 0.0,
+}
+SEND_APIS = ("send", "send_stderr", "sendall", "sendall_stderr")
+
+
+def load_sender_api(ctx):
+    import importlib.util
+    import os
+    path = os.path.join(os.path.dirname(os.path.dirname(os.path.abspath(__file__))), "gen", "c22.py")
+    spec = importlib.util.spec_from_file_location("gen_c22_api", path)
+    mod = importlib.util.module_from_spec(spec)
+    spec.loader.exec_module(mod)
+    return dict(mod.sender_api(ctx.repo))
+
+
+def released_channel(classes, state):
+    """a real Channel whose CLOSE handshake is complete (unlinked), with unread data well above the
+    window threshold; state 'local-first' = close() then the peer's CLOSE, 'peer-first' = the reverse"""
+    from paramiko.message import Message
+    from paramiko import common as pc
+    TChan, StubTransport = classes
+    sched = DetSched(1, [], lambda en: en[0])
+    sched.live = False          # no scheduling: single-threaded use of the instrumented classes
+    stub = StubTransport(sched)
+    chan = TChan(CHANID)
+    chan._set_transport(stub)
+    chan._set_window(27, 1 << 15)
+    chan.remote_chanid = REMOTE
+    chan.out_window_size = 100
+    chan.out_max_packet_size = 1000
+    chan.active = 1
+    chan.settimeout(0.0)
+    chan.in_buffer.feed(b"i" * 50)
+    chan.in_stderr_buffer.feed(b"j" * 50)
+    stub._channels.put(CHANID, chan)
+    stub.channels_seen[CHANID] = True
+    if state == "local-first":
+        chan.close()
+        stub.dispatch(pc.MSG_CHANNEL_CLOSE, CHANID, Message())
+    else:
+        stub.dispatch(pc.MSG_CHANNEL_CLOSE, CHANID, Message())
+        chan.close()
+    return chan, stub
+
+
+def api_calls(ctx, sender_api):
+    """(api label, callable(chan)) for every public method of Channel (runtime reflection), the senders'
+    variants first; arguments synthesised from the parameter names (fail-closed on an unknown name)"""
+    import inspect
+    from paramiko.channel import Channel
+    out = []
+    for name, fn in sorted(inspect.getmembers(Channel, predicate=inspect.isfunction)):
+        if name.startswith("_"):
+            continue
+        if name.startswith("makefile"):
+            for mode in ("wb", "rb"):
+                def call(chan, name=name, mode=mode):
+                    f = getattr(chan, name)(mode)
+                    chan.transport.keep.append(f)
+                    try:
+                        if mode == "wb":
+                            f.write(b"xyz")
+                            f.flush()
+                    finally:
+                        f.close()
+                out.append(("%s(%r).write/flush/close" % (name, mode) if mode == "wb"
+                            else "%s(%r).close" % (name, mode), name, call))
+            continue
+        sig = inspect.signature(fn)
+        variants = [{}]
+        ok = True
+        for pname, prm in list(sig.parameters.items())[1:]:
+            if prm.kind in (prm.VAR_POSITIONAL, prm.VAR_KEYWORD) or prm.default is not prm.empty:
+                continue
+            if pname not in ARG_BY_NAME:
+                ctx.disagree("released-channel sweep: cannot synthesise argument %r of Channel.%s (new API: extend "
+                             "ARG_BY_NAME)" % (pname, name))
+                ok = False
+                break
+            if pname == "how":
+                variants = [dict(v, how=h) for v in variants for h in (0, 1, 2)]
+            else:
+                variants = [dict(v, **{pname: ARG_BY_NAME[pname]}) for v in variants]
+        if not ok:
+            continue
+        for kw in variants:
+            label = "%s(%s)" % (name, ", ".join("%s=%s" % (k, "<fn>" if callable(v) else repr(v))
+                                                for k, v in sorted(kw.items())))
+            out.append((label, name, (lambda chan, name=name, kw=kw: getattr(chan, name)(**kw))))
+    return out
+
+
+def sweep_one(ctx, classes, state, label, name, call, decorated, twice):
+    from common import with_watchdog
+    from paramiko.ssh_exception import SSHException
+    chan, stub = released_channel(classes, state)
+    n0 = len(stub.sent)
+    outcomes = []
+    for _ in range(2 if twice else 1):
+        kind, val = with_watchdog(lambda: call(chan), 3.0)
+        outcomes.append("hang" if kind == "hang" else ("ok" if kind == "ok" else type(val).__name__))
+        extra = stub.sent[n0:]
+        case = {"api": label, "state": state, "calls": len(outcomes)}
+        if extra:
+            ctx.fail("released-api-sends:%s" % name,
+                     "Channel.%s on a channel whose CLOSEs have both been exchanged (released) still sends a message "
+                     "instead of failing" % name, case=case, expected="nothing on the wire",
+                     observed=[[m[0], len(m)] for m in extra])
+            break
+        if kind == "hang":
+            ctx.fail("released-api-hangs:%s" % name, "Channel.%s on a released channel blocks" % name, case=case)
+            break
+        if name in decorated and decorated[name] and not (kind == "exc" and isinstance(val, SSHException)):
+            ctx.fail("released-api-does-not-raise:%s" % name,
+                     "Channel.%s (an @open_only API) on a released channel did not raise SSHException" % name,
+                     case=case, expected="SSHException", observed=outcomes[-1])
+        if name in SEND_APIS and not (kind == "exc" and isinstance(val, OSError)):
+            ctx.fail("released-api-does-not-raise:%s" % name,
+                     "Channel.%s on a released channel did not raise socket.error" % name,
+                     case=case, expected="socket.error", observed=outcomes[-1])
+    stub.recording = False
+    return outcomes
+
+
+def released_sweep(ctx, classes, only=None):
+    try:
+        decorated = load_sender_api(ctx)
+    except Exception as e:  # noqa -- the sweep itself does not depend on the translator
+        ctx.disagree("gen/c22.py sender_api failed (fail-closed): %s" % repr(e)[:300])
+        decorated = {}
+    calls = api_calls(ctx, decorated)
+    names = {n for _, n, _ in calls}
+    for n in decorated:
+        if n not in names:
+            ctx.disagree("released-channel sweep: sender API Channel.%s found by the translator is not called" % n)
+    n = 0
+    for state in ("local-first", "peer-first"):
+        for label, name, call in calls:
+            if only is not None and (label, state) != only:
+                continue
+            out = sweep_one(ctx, classes, state, label, name, call, decorated, twice=True)
+            ctx.count(("released", state, label), nontrivial=name in decorated, kind="released-api/" + state)
+            n += 1
+            if n == 1:
+                ctx.sample({"released_api": label, "state": state, "outcomes": out})
+    return n, len(decorated)
+
+
 def replay(ctx, rep):
     case = rep.get("case") or {}
+    if "api" in case:
+        released_sweep(ctx, make_classes(), only=(case["api"], case["state"]))
+        ctx.count(("replay-released", case["api"]), kind="replay")
+        return
     if "programs" not in case:
         return run(ctx)
     classes = make_classes()
